@@ -88,13 +88,13 @@ def run(tier):
     cc.sim_phase(chk, PID, "A1_ublock", config("A1_ublock"), MINE, 9000 if th else 1500, 9,
                  {"scenario": "tmpl", "numeric": False, "pnu": 4, "tnu": (3, 3), "tmpl_loss": "u"}, nontrivial_fn=onto_ancilla)
     pctx = {"scenario": "tmpl", "numeric": False, "pnu": 4, "tnu": (3, 2), "tmpl_loss": False}
-    cc.addpos_phase(chk, PID, "addpos_two_heralds", addpos_config("two_heralds"), MINE, 1.0 if th else 0.02, 8000 if th else 1200,
+    cc.addpos_phase(chk, PID, "addpos_two_heralds", addpos_config("two_heralds"), MINE, 0.3 if th else 0.02, 8000 if th else 1200,
                     addpos_config("deep"), 8, pctx, nontrivial_fn=onto_ancilla)
-    cc.addpos_phase(chk, PID, "addpos_nested", addpos_config("nested"), MINE, 1.0 if th else 0.02, 8000 if th else 800,
+    cc.addpos_phase(chk, PID, "addpos_nested", addpos_config("nested"), MINE, 0.3 if th else 0.02, 8000 if th else 800,
                     addpos_config("deep_wide"), 9, dict(pctx, pnu=3), nontrivial_fn=onto_ancilla,
                     variants=("unpinned", "nointcount"))      # "nocascade" needs two heralds on one sub-circuit: refuted in the scope above
     if th:
-        cc.addpos_phase(chk, PID, "addpos_full_len4", addpos_config("full_len4"), MINE, 0.2, 0, None, 0, pctx, nontrivial_fn=onto_ancilla)
+        cc.addpos_phase(chk, PID, "addpos_full_len4", addpos_config("full_len4"), MINE, 0.1, 0, None, 0, pctx, nontrivial_fn=onto_ancilla)
     cc.script_phase(chk, PID, "findings", cc.load_corpus(PID), MINE)
     cc.repo_tests_phase(chk, PID, MINE, ["tests/sdk/circuit_test.py"] + (["tests/qubit", "tests/interferometers", "tests/sdk/display_test.py", "tests/tomography"] if th else []))
     cc.trace_phase(chk, PID, "wiring_ring", 2400 if th else 400, "wiring", MINE, numeric=True)
